@@ -130,6 +130,24 @@ class FakeSeries:
         v = self.values
         return FakeSeries(arrays.cast_array(v, dt) if isinstance(v, SymArray) else v.astype(arrays._np_dtype(dt)), self.index, self.name)
 
+    def mask(self, cond, other=float("nan")):
+        """Series.mask: `other` (NaN) where cond holds, the value elsewhere"""
+        c = cond.values if isinstance(cond, FakeSeries) else cond
+        c = np.asarray(arrays._plain(c), dtype=object) if isinstance(c, np.ndarray) else c
+        v = np.asarray(arrays._plain(self.values), dtype=object)
+        out = np.empty(v.shape, dtype=object)
+        for i in range(v.shape[0]):
+            ci = c[i] if isinstance(c, np.ndarray) else c
+            if isinstance(ci, Sym):
+                out[i] = core.ite(ci, other, v[i])
+            else:
+                out[i] = other if builtins.bool(ci) else v[i]
+        return FakeSeries(arrays._result(out), self.index, self.name)
+
+    def where(self, cond, other=float("nan")):
+        c = cond.values if isinstance(cond, FakeSeries) else cond
+        return self.mask(~np.asarray(c, dtype=bool) if not arrays.has_sym(np.asarray(arrays._plain(c), dtype=object)) else arrays.NP.logical_not(c), other)
+
     def isna(self):
         return FakeSeries(np.isnan(self.values) if not isinstance(self.values, SymArray) else arrays.array_ufunc(np.isnan, "__call__", (self.values,), {}), self.index)
 
